@@ -22,8 +22,10 @@ Texts the oracle is written from
 import io
 import struct
 
+from hypothesis import strategies as st
+
 from vf.enc import elf as W
-from vf.choose import RndChooser, composite_from
+from vf.choose import RndChooser, HypChooser
 
 ID = 'C14'
 RULE = ('A model of a note extent (0..12 notes (sweep: up to 10 per extent, every namesz 0..9 x descsz 0..9 residue '
@@ -469,7 +471,7 @@ def check_desc(ctx, case, x, got, where):
     raise AssertionError(t)
 
 
-def walk(ctx, case, view, obj, exp, base, extent):
+def walk(ctx, case, view, obj, exp, base, extent, flen):
     """Iterate one view, compare with the model.  Returns the list of plain dict snapshots that were yielded."""
     core = case['e_type'] == ET_CORE
     L = lib()
@@ -484,8 +486,16 @@ def walk(ctx, case, view, obj, exp, base, extent):
         exc = e
     if exc is not None:
         i = len(got)
-        if i < len(exp) and exp[i]['treat'] == 'collision':
-            x = exp[i]
+        x = exp[i] if i < len(exp) else None
+        if (x is not None and x['treat'] == 'psinfo' and case['cls'] == 32 and ugid_bits(32, case['e_machine']) == 16
+                and flen - (base + x['rel'] + 12 + pad4(x['namesz']) + len(x['desc'])) < 4):
+            # same root cause as the non-raising form below: the 124-byte ugid16 descriptor is parsed with the 128-byte
+            # ugid32 layout, which runs past the end of the file when fewer than 4 bytes follow the descriptor
+            ctx.fail('desc|prpsinfo|wrong-ugid-width|elf32|e_machine=%#x' % case['e_machine'],
+                     '%s note[%d]: kernel ABI has 16-bit pr_uid/pr_gid for this machine (descsz 124); the descriptor ends %d '
+                     'bytes before EOF and parsing raised %s: %s' % (view, i, flen - (base + x['rel'] + x['size']),
+                                                                     type(exc).__name__, str(exc)[:120]), case)
+        elif x is not None and x['treat'] == 'collision':
             ctx.fail('walk|owner-ignored-in-dispatch|%s|exception' % MUST_NTYPE[True][x['type']],
                      '%s note[%d]: ET_CORE note owner %r type %#x descsz %d is not a CORE note (gABI: name AND type '
                      'identify a descriptor) but is parsed as one; iteration aborts with %s: %s'
@@ -597,7 +607,7 @@ def run_case(ctx, case):
             if type(sec).__name__ != 'NoteSection':
                 ctx.fail('section|class', 'SHT_NOTE section is a %s' % type(sec).__name__, case)
             else:
-                results['sec'] = walk(ctx, case, 'section', sec, exp, base, len(blob))
+                results['sec'] = walk(ctx, case, 'section', sec, exp, base, len(blob), len(data))
         except Exception as e:  # noqa
             ctx.fail_exc('get_section', e, case)
     if ix['seg'] is not None:
@@ -606,7 +616,7 @@ def run_case(ctx, case):
             if type(seg).__name__ != 'NoteSegment':
                 ctx.fail('segment|class', 'PT_NOTE segment is a %s' % type(seg).__name__, case)
             else:
-                results['seg'] = walk(ctx, case, 'segment', seg, exp, base, len(blob))
+                results['seg'] = walk(ctx, case, 'segment', seg, exp, base, len(blob), len(data))
         except Exception as e:  # noqa
             ctx.fail_exc('get_segment', e, case)
     if 'sec' in results and 'seg' in results:
@@ -763,7 +773,8 @@ def gen_layout(ch, cls):
 
 def gen_stabs(ch):
     n = ch.choice([0, 1, 2, 3, ch.int(0, 50)])
-    return [[ch.word(32), ch.int(0, 255), ch.int(0, 255), ch.word(16), ch.word(32)] for _ in range(n)]
+    blob = ch.bytes(12 * n)           # one draw; the bytes are only a source of field VALUES (fixed LE reading)
+    return [list(struct.unpack_from('<IBBHI', blob, 12 * i)) for i in range(n)]
 
 
 def build_case(ch, tier):
@@ -789,7 +800,44 @@ def build_case(ch, tier):
     return case
 
 
-strategy = composite_from(build_case)
+class FastHyp(HypChooser):
+    """HypChooser with memoised strategy objects (building a fresh one_of/integers strategy per draw dominated the
+    run time); the drawn distributions are the same."""
+    _ints, _words, _bins = {}, {}, {}
+
+    def int(self, lo, hi):
+        s = self._ints.get((lo, hi))
+        if s is None:
+            s = self._ints[(lo, hi)] = st.integers(lo, hi)
+        return self.draw(s)
+
+    def choice(self, seq):
+        return seq[self.int(0, len(seq) - 1)]
+
+    def bool(self, p=0.5):
+        return self.int(0, 999) < p * 1000
+
+    def bytes(self, lo, hi=None):
+        hi = lo if hi is None else hi
+        s = self._bins.get((lo, hi))
+        if s is None:
+            s = self._bins[(lo, hi)] = st.binary(min_size=lo, max_size=hi)
+        return self.draw(s)
+
+    def word(self, bits):
+        s = self._words.get(bits)
+        if s is None:
+            s = self._words[bits] = st.one_of(
+                st.sampled_from([0, 1, (1 << bits) - 1, 1 << (bits - 1), (1 << (bits - 1)) - 1]),
+                st.integers(0, 255), st.integers(0, 0xffff), st.integers(0, (1 << bits) - 1))
+        return self.draw(s)
+
+
+def strategy(tier):
+    @st.composite
+    def s(draw):
+        return build_case(FastHyp(draw), tier)
+    return s()
 
 
 def _mk(cls, le, core, view, notes, machine=None, stabs=None, lay=None, e_type=None, ch=None):
